@@ -6,7 +6,7 @@ import random, json, sys
 from ..harness import coq, impl, scn
 
 pid = 'C11'
-gen_modules = ['tr_pin_inherit', 'tr_pin_contracts', 'tr_contracts']
+gen_modules = ['tr_pin_inherit', 'tr_pin_contracts', 'tr_contracts', 'tr_rest_decorators']
 model_targets = ['Sem/ClassModel.v']
 hand_modelled = ['coq/Py/Mro.v (C3 linearisation, validated against CPython here)', 'coq/Sem/ClassModel.v: Inherit._patch on a class table (hand-written; source pinned)']
 explanation = ('Theorem: the registry of a method marked inherit contains its own contracts and, for every class of the MRO owning a contracted same-named method, '
@@ -42,7 +42,7 @@ def gen_case(rnd):
     queries = [[c['name'], 'm'] for c in classes if any(True for _ in [1])]
     # every contract is a precondition or a raises contract (get_contracts lists preconditions first)
     kinds = {str(i): ('raises' if rnd.random() < .3 else 'pre') for i in range(1, cid + 1)}
-    return {'classes': classes, 'queries': queries, 'kinds': kinds}
+    return {'classes': classes, 'queries': queries, 'kinds': kinds, 'first_disabled': rnd.random() < .3}
 
 
 def q(s): return '"' + s + '"'
